@@ -156,6 +156,10 @@ def make_session(kind, device_params=None, nc_params=None, ignore_errors=None):
         s._channel = chan
         s._transport = FakeTransport(ctl, chan)
         s._channel_id = 1
+        # virtual time for the waits of SSHSession.close(): `self.join(10)` becomes a 10 ms wait, so that "the worker is busy for
+        # longer than one join timeout" is an ordinary schedule of the lock-step run instead of a 10 s sleep
+        real_join = s.join
+        s.join = lambda timeout=None: real_join(None if timeout is None else min(timeout, 0.01))
     else:
         s._socket = FakeSocket(ctl)
     s._connected = True
